@@ -71,7 +71,7 @@ impl FileSystemLayer {
                     let pattern = format!("{}{}", glob::Pattern::escape(&canonical), pattern);
                     Ok(glob::glob(&pattern)?
                         .filter_map(|r| r.ok())
-                        .map(|p| p.display().to_string().replace(&layer_str, ""))
+                        .map(|p| p.display().to_string().replacen(&layer_str, "", 1))
                         .collect())
                 } else {
                     Ok(Default::default())
@@ -95,7 +95,7 @@ impl FileSystemLayer {
                     Ok(glob::glob(&pattern)?
                         .filter_map(|r| r.ok())
                         .filter(|p| p.is_dir())
-                        .map(|p| p.display().to_string().replace(&layer_str, ""))
+                        .map(|p| p.display().to_string().replacen(&layer_str, "", 1))
                         .collect())
                 } else {
                     Ok(Default::default())
